@@ -65,10 +65,12 @@ T1=$(date +%s)
 EXECS=$(grep -h "stat::number_of_executed_units" "$LOGS"/fuzz-*.log 2>/dev/null | awk '{s+=$2} END {print s+0}')
 NCORP=$(ls "$CORPUS" | wc -l)
 COV=$(grep -h "cov: " "$LOGS"/fuzz-*.log 2>/dev/null | sed -n 's/.*cov: \([0-9]*\).*/\1/p' | sort -n | tail -1)
-NART=$(ls "$ART" 2>/dev/null | wc -l)
+NART=$(ls "$ART" 2>/dev/null | grep -cv "^slow-unit-")
+NSLOW=$(ls "$ART" 2>/dev/null | grep -c "^slow-unit-")
 REPRO=0
 for a in "$ART"*; do
   [ -f "$a" ] || continue
+  case "$(basename "$a")" in slow-unit-*) continue ;; esac
   R="$WORK/replay/$ID-fuzz-$(basename "$a").json"; mkdir -p "$WORK/replay"
   python3 - "$a" "$R" "$ID" <<'PY'
 import sys,json
@@ -86,6 +88,6 @@ PY
     fi
   fi
 done
-note "{\"ran\": true, \"engine\": \"libFuzzer via cargo-fuzz, $JOBS jobs\", \"runs\": $EXECS, \"corpus_units\": $NCORP, \"coverage_edges\": ${COV:-0}, \"artifacts\": $NART, \"artifacts_not_reproduced_under_production_oracle\": $NART, \"wall_s\": $((T1-T0))}"
+note "{\"ran\": true, \"engine\": \"libFuzzer via cargo-fuzz, $JOBS jobs\", \"runs\": $EXECS, \"corpus_units\": $NCORP, \"coverage_edges\": ${COV:-0}, \"artifacts\": $NART, \"artifacts_not_reproduced_under_production_oracle\": $NART, \"slow_units_(informational)\": $NSLOW, \"wall_s\": $((T1-T0))}"
 echo "$ID fuzz: target=$TARGET execs=$EXECS corpus=$NCORP cov=${COV:-?} artifacts=$NART wall=$((T1-T0))s"
 exit 0
